@@ -595,3 +595,16 @@ KEEP += [
      "    pub fn collides(&self, joints: &Joints) -> bool {\n        let robot: &dyn Kinematics = &*self.kinematics;\n        self.body.collides(joints, robot)\n    }\n",
      ['C11', 'C12', 'C13'], 'the stack held in a typed local before the collision call'),
 ]
+
+# ---- fifteenth batch: Tool / Base / Parallelogram
+KEEP += [
+    ('K147', None, [(T, "impl Kinematics for Tool {\n    fn inverse(&self, tcp: &Pose) -> Solutions {\n        self.robot.inverse(&(tcp * self.tool.inverse()))\n    }\n\n    fn inverse_5dof(&self, tcp: &Pose, j6: f64) -> Solutions {\n        self.robot.inverse_5dof(&(tcp * self.tool.inverse()), j6)\n    }\n\n    fn inverse_continuing_5dof(&self, tcp: &Pose, previous: &Joints) -> Solutions {\n        self.robot.inverse_continuing_5dof(&(tcp * self.tool.inverse()), previous)\n    }\n\n    fn inverse_continuing(&self, tcp: &Pose, previous: &Joints) -> Solutions {\n        self.robot.inverse_continuing(&(tcp * self.tool.inverse()), previous)\n    }\n",
+                     "impl Tool {\n    /// Pose of the flange for the given pose of the tool centre point\n    fn flange(&self, tcp: &Pose) -> Pose {\n        tcp * self.tool.inverse()\n    }\n}\n\nimpl Kinematics for Tool {\n    fn inverse(&self, tcp: &Pose) -> Solutions {\n        self.robot.inverse(&self.flange(tcp))\n    }\n\n    fn inverse_5dof(&self, tcp: &Pose, j6: f64) -> Solutions {\n        self.robot.inverse_5dof(&self.flange(tcp), j6)\n    }\n\n    fn inverse_continuing_5dof(&self, tcp: &Pose, previous: &Joints) -> Solutions {\n        self.robot.inverse_continuing_5dof(&self.flange(tcp), previous)\n    }\n\n    fn inverse_continuing(&self, tcp: &Pose, previous: &Joints) -> Solutions {\n        self.robot.inverse_continuing(&self.flange(tcp), previous)\n    }\n", False)],
+     None, ['C09', 'C03', 'C06', 'C16'], 'the flange pose of the four Tool inverse entry points through one helper'),
+    ('K148', T, "        // Apply the base transformation to each pose\n        for pose in poses.iter_mut() {\n            *pose = self.base * *pose;\n        }\n\n        poses\n",
+     "        // Apply the base transformation to each pose\n        for i in 0..poses.len() {\n            poses[i] = self.base * poses[i];\n        }\n\n        poses\n",
+     ['C09', 'C03'], 'link poses moved by an index loop over poses.len()'),
+    ('K149', None, [(P, "impl Kinematics for Parallelogram {\n    fn inverse(&self, tcp: &Pose) -> Solutions {\n        let mut solutions = self.robot.inverse(tcp);\n\n        // Reversing the influence of driven joint in inverse kinematics\n        solutions.iter_mut().for_each(|x| x[self.coupled] += \n            self.scaling * x[self.driven]); \n        solutions\n    }\n",
+                     "impl Parallelogram {\n    fn couple(&self, mut solutions: Solutions) -> Solutions {\n        for x in solutions.iter_mut() {\n            x[self.coupled] += self.scaling * x[self.driven];\n        }\n        solutions\n    }\n}\n\nimpl Kinematics for Parallelogram {\n    fn inverse(&self, tcp: &Pose) -> Solutions {\n        self.couple(self.robot.inverse(tcp))\n    }\n", False)],
+     None, ['C16', 'C08'], 'the post-map of Parallelogram::inverse moved into a helper taking and returning the solutions'),
+]
